@@ -469,4 +469,184 @@ theorem flag_list_rt {c : FlagClass} {cfg : NameCfg} {o : ListOpts} {ld : PyVal 
     exact this
 
 
+/-- `allow_compound = True`: every combination of members of the class round-trips. -/
+theorem flag_list_rt_all_members {c : FlagClass} {cfg : NameCfg} {o : ListOpts}
+    {ld : PyVal → Outcome Nat} {dp : Nat → List String} (hc : o.allowCompound = true)
+    (hl : flagListLoader c cfg o = .ok ld) (hd : flagListDumper c cfg o = .ok dp)
+    (hinj : InjectiveCaseNames c cfg o) {S : List FlagCase} (hS : ∀ s ∈ S, s ∈ c.membersValues) :
+    ld (.list ((dp (unionOf S)).map Atom.str)) = .ok (unionOf S) :=
+  flag_list_rt hl hd hinj (fun s hs => by simpa [FlagClass.getCases, hc] using hS s hs)
+
+/-- every member is a union of single-bit members of the class -/
+def EveryBitNamed (c : FlagClass) : Prop :=
+  ∀ m ∈ c.membersValues, ∃ T : List FlagCase, (∀ t ∈ T, t ∈ c.nonCompound) ∧ m.bits = unionOf T
+
+theorem unionOf_append (a b : List FlagCase) : unionOf (a ++ b) = unionOf a ||| unionOf b := by
+  simp [unionOf, orAll_append]
+
+/-- `allow_compound = False`, what does hold: every combination of members round-trips
+    provided every member is a union of single-bit members (`EveryBitNamed`).
+    The full statement — for *every* flag class — is `FlagListRoundTripFull` below; it is false. -/
+theorem flag_list_rt_noncompound_partial {c : FlagClass} {cfg : NameCfg} {o : ListOpts}
+    {ld : PyVal → Outcome Nat} {dp : Nat → List String} (hc : o.allowCompound = false)
+    (hl : flagListLoader c cfg o = .ok ld) (hd : flagListDumper c cfg o = .ok dp)
+    (hinj : InjectiveCaseNames c cfg o) (hbits : EveryBitNamed c)
+    {S : List FlagCase} (hS : ∀ s ∈ S, s ∈ c.membersValues) :
+    ld (.list ((dp (unionOf S)).map Atom.str)) = .ok (unionOf S) := by
+  have hflat : ∃ S' : List FlagCase, (∀ s ∈ S', s ∈ c.nonCompound) ∧ unionOf S = unionOf S' := by
+    induction S with
+    | nil => exact ⟨[], by simp, rfl⟩
+    | cons s t ih =>
+      obtain ⟨T, hT, hs⟩ := hbits s (hS s (by simp))
+      obtain ⟨S', hS', ht⟩ := ih (fun x hx => hS x (List.mem_cons_of_mem _ hx))
+      refine ⟨T ++ S', ?_, ?_⟩
+      · intro x hx
+        rcases List.mem_append.1 hx with hx | hx
+        · exact hT x hx
+        · exact hS' x hx
+      · rw [unionOf_append, ← hs, ← ht]; rfl
+  obtain ⟨S', hS', heq⟩ := hflat
+  rw [heq]
+  exact flag_list_rt hl hd hinj (fun s hs => by simpa [FlagClass.getCases, hc] using hS' s hs)
+
+/-- The full-strength statement of the property for the name-list provider: *every* flag
+    class, *every* option combination, every combination of members. -/
+def FlagListRoundTripFull : Prop :=
+  ∀ (c : FlagClass) (cfg : NameCfg) (o : ListOpts) (ld : PyVal → Outcome Nat) (dp : Nat → List String),
+    flagListLoader c cfg o = .ok ld → flagListDumper c cfg o = .ok dp → InjectiveCaseNames c cfg o →
+    ∀ S : List FlagCase, (∀ s ∈ S, s ∈ c.membersValues) →
+      ld (.list ((dp (unionOf S)).map Atom.str)) = .ok (unionOf S)
+
+/-- **It does not hold** (known finding): with `allow_compound=False` the bits of a member
+    that have no single-bit member of their own are dropped.  Witness: `class F(Flag): AB = 3`
+    — `dump(F.AB) == []`, which loads as `F(0)`. -/
+theorem flag_list_rt_full_fails : ¬ FlagListRoundTripFull := by
+  intro h
+  have := h { entries := [⟨"AB", 3⟩] } {} { allowCompound := false } _ _ rfl rfl
+    (by intro a ha; simp [FlagClass.getCases, FlagClass.nonCompound, FlagClass.membersValues,
+          FlagClass.canonName, isSingleBit] at ha)
+    [⟨"AB", 3⟩] (by simp [FlagClass.membersValues, FlagClass.canonName])
+  revert this
+  decide
+
+/-! ## Flag by member names: the loader accepts exactly the representations -/
+
+/-- how the loader obtains the sequence of items it processes -/
+def Container (o : ListOpts) (d : PyVal) (items : List Atom) : Prop :=
+  d = .list items ∨ d = .tuple items ∨ (d = .mapping items ∧ o.strictCoercion = false) ∨
+    ∃ s, d = .atom (.str s) ∧ o.allowSingleValue = true ∧ items = [.str s]
+
+/-- the dispatch on the type of the datum at the head of `flag_loader` -/
+def dispatch (o : ListOpts) (ml : List (String × FlagCase)) (d : PyVal) : Outcome Nat :=
+  match d with
+  | .list xs => listLoadItems o ml xs
+  | .tuple xs => listLoadItems o ml xs
+  | .mapping ks => if o.strictCoercion then .loadErr .excludedType else listLoadItems o ml ks
+  | .atom (.str s) => if o.allowSingleValue then listLoadItems o ml [.str s] else .loadErr .typeLoad
+  | _ => .loadErr .typeLoad
+
+theorem dispatch_of_container {o : ListOpts} {ml : List (String × FlagCase)} {d : PyVal}
+    {items : List Atom} (h : Container o d items) : dispatch o ml d = listLoadItems o ml items := by
+  unfold Container at h
+  rcases h with rfl | rfl | ⟨rfl, hs⟩ | ⟨s, rfl, hs, rfl⟩ <;> simp [dispatch, *]
+
+theorem dispatch_cases {o : ListOpts} {ml : List (String × FlagCase)} (d : PyVal) :
+    (∃ items, Container o d items) ∨
+      ((∀ items, ¬ Container o d items) ∧
+        (dispatch o ml d = .loadErr .typeLoad ∨ dispatch o ml d = .loadErr .excludedType)) := by
+  cases d with
+  | list xs => exact Or.inl ⟨xs, Or.inl rfl⟩
+  | tuple xs => exact Or.inl ⟨xs, Or.inr (Or.inl rfl)⟩
+  | mapping ks =>
+    by_cases hs : o.strictCoercion = true
+    · refine Or.inr ⟨fun items hc => ?_, Or.inr (by simp [dispatch, hs])⟩
+      unfold Container at hc; simp [hs] at hc
+    · exact Or.inl ⟨ks, Or.inr (Or.inr (Or.inl ⟨rfl, by simpa using hs⟩))⟩
+  | self n a =>
+    refine Or.inr ⟨fun items hc => ?_, Or.inl rfl⟩
+    unfold Container at hc; simp at hc
+  | atom a =>
+    by_cases hstr : ∃ s, a = .str s
+    · obtain ⟨s, rfl⟩ := hstr
+      by_cases hs : o.allowSingleValue = true
+      · exact Or.inl ⟨[.str s], Or.inr (Or.inr (Or.inr ⟨s, rfl, hs, rfl⟩))⟩
+      · refine Or.inr ⟨fun items hc => ?_, Or.inl (by simp [dispatch, hs])⟩
+        unfold Container at hc; simp [hs] at hc
+    · refine Or.inr ⟨fun items hc => ?_, Or.inl ?_⟩
+      · unfold Container at hc
+        simp at hc
+        obtain ⟨s, hs, _⟩ := hc
+        exact hstr ⟨s, hs⟩
+      · cases a <;> first | rfl | exact absurd ⟨_, rfl⟩ hstr
+
+theorem flagListLoader_ok' {c : FlagClass} {cfg : NameCfg} {o : ListOpts} {ld : PyVal → Outcome Nat}
+    (h : flagListLoader c cfg o = .ok ld) :
+    ∃ ml, genForLoading FlagCase.name cfg (c.getCases o) = some ml ∧ ld = dispatch o ml := by
+  obtain ⟨ml, hml, rfl⟩ := flagListLoader_ok h
+  exact ⟨ml, hml, rfl⟩
+
+/-- **The name-list loader accepts exactly the representations**: a list / tuple (a mapping
+    under lax coercion, a single `str` when `allow_single_value`) whose items are, one by
+    one, the mapped names of cases the provider uses — without equal items unless
+    `allow_duplicates` — and it returns the union of those cases. -/
+theorem flag_list_accepts_iff {c : FlagClass} {cfg : NameCfg} {o : ListOpts} {ld : PyVal → Outcome Nat}
+    (hl : flagListLoader c cfg o = .ok ld) (hinj : InjectiveCaseNames c cfg o) (d : PyVal) (v : Nat) :
+    ld d = .ok v ↔
+      ∃ (items : List Atom) (cs : List FlagCase), Container o d items ∧
+        (o.allowDuplicates = true ∨ items.Pairwise (fun a b => a.pyEq b = false)) ∧
+        (∀ k ∈ cs, k ∈ c.getCases o) ∧
+        cs.map (fun k => (cfg.mapped k.name).map Atom.str) = items.map some ∧
+        v = unionOf cs := by
+  obtain ⟨ml, hml, rfl⟩ := flagListLoader_ok' hl
+  constructor
+  · intro hload
+    rcases dispatch_cases (o := o) (ml := ml) d with ⟨items, hcont⟩ | ⟨_, h | h⟩
+    · rw [dispatch_of_container hcont, listLoadItems_ok_iff] at hload
+      obtain ⟨hdup, hall, hv⟩ := hload
+      have hlook := (map_lookup_eq_iff ml items _).2 ⟨hall, rfl⟩
+      obtain ⟨hmem, hnames⟩ := (map_lookup_eq_names hml hinj items _).1 hlook
+      refine ⟨items, _, hcont, ?_, hmem, hnames, hv⟩
+      rcases hdup with hdup | ⟨_, hdup⟩
+      · exact Or.inl hdup
+      · exact Or.inr ((hasDuplicates_eq_false_iff items).1 hdup)
+    · rw [h] at hload; cases hload
+    · rw [h] at hload; cases hload
+  · rintro ⟨items, cs, hcont, hdup, hmem, hnames, hv⟩
+    rw [dispatch_of_container hcont]
+    have hlook := (map_lookup_eq_names hml hinj items cs).2 ⟨hmem, hnames⟩
+    obtain ⟨hall, hfm⟩ := (map_lookup_eq_iff ml items cs).1 hlook
+    rw [listLoadItems_ok_iff]
+    refine ⟨?_, hall, by rw [hfm]; exact hv⟩
+    rcases hdup with hdup | hdup
+    · exact Or.inl hdup
+    · refine Or.inr ⟨?_, (hasDuplicates_eq_false_iff items).2 hdup⟩
+      rw [List.all_eq_true]
+      intro i hi
+      have : some i ∈ items.map some := List.mem_map.2 ⟨i, hi, rfl⟩
+      rw [← hnames, List.mem_map] at this
+      obtain ⟨k, _, hk⟩ := this
+      cases hm : cfg.mapped k.name with
+      | none => simp [hm] at hk
+      | some s => simp [hm] at hk; subst hk; rfl
+
+/-- … and answers every other datum with a `LoadError`; the only other exception that can
+    leave it is `TypeError` from `set()` when `allow_duplicates=False` meets an unhashable
+    item (DESIGN §5 item 9, owned by C04). -/
+theorem flag_list_rejects {c : FlagClass} {cfg : NameCfg} {o : ListOpts} {ld : PyVal → Outcome Nat}
+    (hl : flagListLoader c cfg o = .ok ld) (d : PyVal) :
+    (∃ v, ld d = .ok v) ∨ (∃ e, ld d = .loadErr e) ∨
+      (o.allowDuplicates = false ∧ ∃ items, Container o d items ∧ items.all Atom.hashable = false) := by
+  obtain ⟨ml, _, rfl⟩ := flagListLoader_ok' hl
+  rcases dispatch_cases (o := o) (ml := ml) d with ⟨items, hcont⟩ | ⟨_, h | h⟩
+  · by_cases hok : o.allowDuplicates = true ∨ items.all Atom.hashable = true
+    · rw [dispatch_of_container hcont]
+      rcases listLoadItems_total o ml items hok with h | h
+      · exact Or.inl h
+      · exact Or.inr (Or.inl h)
+    · refine Or.inr (Or.inr ⟨?_, items, hcont, ?_⟩)
+      · cases hd : o.allowDuplicates <;> simp_all
+      · cases hh : items.all Atom.hashable <;> simp_all
+  · exact Or.inr (Or.inl ⟨_, h⟩)
+  · exact Or.inr (Or.inl ⟨_, h⟩)
+
 end Adaptix.Enum.C18
